@@ -152,6 +152,14 @@ protected:
    */
   void edgeMustExist_(const Edge& edge, std::string name = "") const;
 
+  /**
+   * Check that no edge goes from nodeA to nodeB yet (in an undirected graph:
+   * between nodeA and nodeB). If one does, throw an exception.
+   * @param nodeA source node
+   * @param nodeB target node
+   */
+  void relationMustNotExist_(const Node& nodeA, const Node& nodeB) const;
+
 private:
   /**
    * Private version of getIncomingNeighbors or getOutgoingNeighbors.
